@@ -55,10 +55,10 @@ def t_slice(size, a, b, c, i):
     return ["circuit", ["register", "r", size], ["map", "s", "r", a, b, c], ["gate", "g1", AI("s", i)]]
 
 
-@template(size=((1, 3), (1, 4)), a=((0, 2), (-1, 3)), b=((0, 3), (-1, 5)), i=((0, 2), (-1, 3)))
-def t_slice_let(size, a, b, i):
-    return ["circuit", ["let", "la", a], ["let", "lb", b], ["register", "r", size],
-            ["map", "s", "r", "la", "lb", None], ["map", "q", "s", i],
+@template(size=((1, 3), (1, 4)), a=((0, 2), (-1, 3)), b=((0, 3), (-1, 5)), i=((0, 2), (-1, 3)), c=((1, 2), (1, 3)))
+def t_slice_let(size, a, b, i, c):
+    return ["circuit", ["let", "la", a], ["let", "lb", b], ["let", "lc", c], ["register", "r", size],
+            ["map", "s", "r", "la", "lb", "lc"], ["map", "q", "s", i],
             ["gate", "g1", "q"], ["gate", "h1", AI("s", "la"), "lb"], ["gate", "g1", AI("s", i)]]
 
 
@@ -122,11 +122,15 @@ def t_loop_sub(size, k, c, i):
             ["subcircuit_block", "", ["loop", k, ["sequential_block", ["gate", "n0"]]]]]
 
 
-@template(size=((1, 2), (1, 3)), x=((0, 6), (0, 13)), i=((0, 1), (-1, 3)))
-def t_float(size, x, i):
+@template(size=((1, 2), (1, 3)), x=((0, 6), (0, 13)), i=((0, 1), (-1, 3)), xk=((0, 3), (0, 4)))
+def t_float(size, x, i, xk):
+    """float literals as let values, gate arguments and macro arguments; the same numbers (0.0, 2.0, 3.0, 1.0) also occur
+    later as integers in integer-only positions (a loop count, a subcircuit count).  xk is enumerated, not symbolic
+    (float(xk) of a symbolic integer would be a symbolic float, which str() cannot print symbolically)."""
     return ["circuit", ["let", "x", flt(x)], ["let", "y", 1.0], ["register", "r", size],
             ["macro", "m", "t", "q", ["sequential_block", ["gate", "h1", "q", "t"]]],
-            ["gate", "h1", AI("r", i), "x"], ["gate", "n1", flt(x)], ["gate", "m", "x", AI("r", i)], ["gate", "m", 1.5, AI("r", "y")]]
+            ["gate", "h1", AI("r", i), "x"], ["gate", "n1", flt(x)], ["gate", "m", "x", AI("r", i)], ["gate", "m", 1.5, AI("r", "y")],
+            ["gate", "n1", float(xk)], ["loop", xk, ["sequential_block", ["gate", "n1", flt(x)]]], ["subcircuit_block", xk, ["gate", "n1", float(xk)]]]
 
 
 @template(n=((1, 3), (0, 4)), i=((-1, 3), (-1, 4)), b=((0, 3), (-1, 5)))
@@ -186,6 +190,51 @@ def t_seqfirst(size, i, k):
 def t_subcount(size, c, i):
     """a literal subcircuit count on its own (0 is a legal count)"""
     return ["circuit", ["register", "r", size], ["subcircuit_block", c, ["gate", "g1", AI("r", i)]], ["subcircuit_block", "", ["gate", "n0"]]]
+
+
+@template(size=((2, 3), (2, 4)), a=((0, 2), (0, 3)), b=((-1, 1), (-2, 2)), c=((-2, -1), (-3, -1)), i=((0, 1), (-1, 2)))
+def t_slice_rev(size, a, b, c, i):
+    """reversed (negative-step) slices running down to a literal and to a let-valued stop (0 and -1 included; the
+    let-bounded alias is declared but not indexed, so that overriding the let cannot make every program invalid),
+    and an empty alias that is declared but never indexed"""
+    return ["circuit", ["let", "lb", b], ["register", "r", size], ["map", "s", "r", a, b, c], ["map", "e", "r", a, a, None],
+            ["map", "t", "r", a, "lb", c], ["gate", "g1", AI("s", i)], ["gate", "h1", AI("r", a), "lb"]]
+
+
+@template(size=((2, 3), (2, 4)), a=((0, 1), (0, 2)), i=((0, 2), (-1, 3)), j=((0, 2), (-1, 3)))
+def t_macro_twice(size, a, i, j):
+    """the same macro called several times with different index arguments; its body indexes an alias and the
+    register by the parameter (a qubit object shared by all calls)"""
+    return ["circuit", ["register", "r", size], ["map", "s", "r", a, None, None],
+            ["macro", "m", "k", ["sequential_block", ["gate", "g1", AI("s", "k")]]],
+            ["macro", "w", "k", "l", ["parallel_block", ["gate", "m", "k"], ["gate", "h1", AI("r", "l"), 0.5]]],
+            ["gate", "m", i], ["gate", "m", j], ["loop", 2, ["sequential_block", ["gate", "w", j, i]]]]
+
+
+@template(size=((2, 3), (2, 4)), i=((0, 2), (-1, 3)), k=((0, 2), (0, 3)))
+def t_macro_single(size, i, k):
+    """macros whose body is exactly one statement (a gate, a loop, a parallel block), called from the top level, from
+    parallel blocks and from loop bodies"""
+    return ["circuit", ["register", "r", size],
+            ["macro", "mg", "q", ["sequential_block", ["gate", "g1", "q"]]],
+            ["macro", "ml", "q", "n", ["sequential_block", ["loop", "n", ["sequential_block", ["gate", "g1", "q"]]]]],
+            ["macro", "mp", "q", ["sequential_block", ["parallel_block", ["gate", "g1", "q"], ["gate", "n0"]]]],
+            ["gate", "ml", AI("r", i), k], ["gate", "mp", AI("r", i)],
+            ["parallel_block", ["gate", "ml", AI("r", 0), k], ["gate", "mg", AI("r", 1)]],
+            ["parallel_block", ["gate", "mp", AI("r", 0)], ["gate", "g1", AI("r", 1)]],
+            ["loop", k, ["sequential_block", ["gate", "ml", AI("r", i), 2]]],
+            ["loop", 2, ["parallel_block", ["gate", "mg", AI("r", i)]]]]
+
+
+@template(size=((2, 3), (2, 4)), a=((0, 1), (0, 2)), i=((0, 1), (-1, 2)))
+def t_shadow_reg(size, a, i):
+    """a macro parameter that shadows a map alias, and one that shadows the register; the same gate on the same index
+    occurs in a macro body (on the parameter) and in the main body (on the alias / register)"""
+    return ["circuit", ["register", "r", size], ["map", "t", "r", a, None, None],
+            ["macro", "m", "t", "k", ["sequential_block", ["gate", "g1", AI("t", 0)], ["gate", "g1", AI("t", "k")], ["gate", "h1", AI("t", 0), 0.5]]],
+            ["macro", "w", "r", ["sequential_block", ["gate", "g1", AI("r", 0)]]],
+            ["gate", "g1", AI("t", 0)], ["gate", "h1", AI("t", 0), 0.5], ["gate", "g1", AI("t", i)],
+            ["gate", "m", "r", i], ["gate", "m", "t", 0], ["gate", "w", "t"], ["gate", "g1", AI("r", 0)]]
 
 
 ALL = sorted(T)
